@@ -413,7 +413,7 @@ def component_phase(ctx, prop, proved=True):
     result = {"ok": False, "cases": 0, "direct_fail": [], "mismatches": []}
     oracle = vlib.build_oracle(ctx, "replay")
     src = [os.path.join(vlib.HARNESS, "replay_harness.c"), os.path.join(vlib.REPO, "src/munged/hash.c")]
-    exe, err = vlib.cc(ctx, "replayh", src, extra=["-Wl,--wrap=time"], libs=["-lpthread"])
+    exe, err = vlib.cc(ctx, "replayh", src, extra=["-Wl,--wrap=time,--wrap=malloc"], libs=["-lpthread"])
     if exe is None and "undefined reference" in err:
         # replay.c has come to use helpers from elsewhere in the tree (e.g. crypto.c's comparison): link them in, so that the
         # question is put to the code (does it still behave as a replay cache?), not to the linker
@@ -422,7 +422,7 @@ def component_phase(ctx, prop, proved=True):
                sorted(os.path.join(R, "src/libcommon", f) for f in os.listdir(os.path.join(R, "src/libcommon")) if f.endswith(".c")) + \
                [os.path.join(R, "src/libmissing", f) for f in ("strlcpy.c", "strlcat.c")] + \
                [os.path.join(R, "src/libmunge", f) for f in ("strerror.c", "enum.c")]
-        exe, err2 = vlib.cc(ctx, "replayh2", src + more, extra=["-Wl,--wrap=time", "-Wl,--allow-multiple-definition"], libs=["-lcrypto", "-lpthread"])
+        exe, err2 = vlib.cc(ctx, "replayh2", src + more, extra=["-Wl,--wrap=time,--wrap=malloc", "-Wl,--allow-multiple-definition"], libs=["-lcrypto", "-lpthread"])
         err = err if exe is None else ""
     if exe is None:
         ctx.violation("replay harness does not build against /repo (replay.c/hash.c interface changed?): " + err[-500:],
@@ -472,6 +472,39 @@ def component_phase(ctx, prop, proved=True):
     else:
         ctx.violation("replay oracle does not build", {"obligation": "oracle build", "notes": ctx.notes[-1:]},
                       found_input=False)
+    # allocation faults (implementation only: the model's memory is unbounded).  Whatever allocation fails inside an insert,
+    # "inserted" (0) is answered at most once per credential: a 0 means the record EXISTS, the next presentation gets 1
+    if not getattr(ctx, "replay", None):
+        mlines = []
+        for size in (0, 3):
+            for skip in range(0, 4):
+                mlines.append("Q %d aa11223344556677889900aabbccddee:1000:50,bb11223344556677889900aabbccddee:1000:50 t1000,m%d,i0,i0,i0,i1,i1" % (size, skip))
+            # ... also when the table already holds so many records that its node pool has to grow (1024 nodes per block)
+            keys = ",".join("%032x:1000:500" % (0x1000 + k * 7919) for k in range(1100))
+            ops = "t1000," + ",".join("i%d" % k for k in range(1020)) + "".join(",m0,i%d,i%d" % (k, k) for k in range(1020, 1030))
+            mlines.append("Q %d %s %s" % (size, keys, ops))
+        rcm, implm, stderrm = vlib.run_lines([exe], mlines, timeout=600)
+        dist["alloc-fault"] = len(mlines)
+        if rcm != 0 or len(implm) != len(mlines):
+            idx = min(len(implm), len(mlines) - 1)
+            ctx.violation("replay.c/hash.c abort under ASan/UBSan/LSan when an allocation fails, at or after history #%d" % idx,
+                          {"case_line": mlines[idx][:3000], "stderr": stderrm[-3000:], "rc": rcm})
+            return result
+        for l, o in zip(mlines, implm):
+            ctx.count(l[:200])
+            ops_ = l.split(" ")[3].split(",")
+            res_ = [x.split("/")[0] for x in o[2:].split("|")]
+            seen0 = {}
+            for op_, r_ in zip(ops_, res_):
+                if op_[0] != "i":
+                    continue
+                if r_ == "0":
+                    if seen0.get(op_):
+                        direct.append((l, o, ("insert-dup-nomem", "a credential was answered 'inserted' (replay_insert returned 0) TWICE (%s, results %s): the "
+                                                                  "first 0 was given although an allocation had failed and nothing was recorded"
+                                                                  % (op_, [y for x, y in zip(ops_, res_) if x == op_]))))
+                        break
+                    seen0[op_] = True
     result["direct_fail"], result["mismatches"] = direct, mismatches
     if direct:
         l, o, why = direct[0]
